@@ -220,10 +220,15 @@ pub mod stubs {
 
 	/// ghost: number of compression-function calls (== number of single-block hashes computed)
 	pub static mut COMPRESS_CALLS: usize = 0;
-	pub fn blake2b_compress_mix(st: &mut b2::blake2b::Blake2b, f0: u64, f1: u64) {
+	/// same mixer, counting its calls (kept separate: adding the counter to the plain mixer made
+	/// an unrelated harness report spurious __rust_dealloc failures under CBMC 6.11)
+	pub fn blake2b_compress_mix_counting(st: &mut b2::blake2b::Blake2b, f0: u64, f1: u64) {
 		unsafe {
-			COMPRESS_CALLS += 1;
+			COMPRESS_CALLS = COMPRESS_CALLS.wrapping_add(1);
 		}
+		blake2b_compress_mix(st, f0, f1)
+	}
+	pub fn blake2b_compress_mix(st: &mut b2::blake2b::Blake2b, f0: u64, f1: u64) {
 		let s: &mut B2Mirror = unsafe { &mut *(st as *mut b2::blake2b::Blake2b as *mut B2Mirror) };
 		let m = &s.m;
 		let mut acc = s.t ^ f0 ^ f1.rotate_left(1);
@@ -395,6 +400,11 @@ macro_rules! proof {
 	( @acc [hash_mix, $($g:ident,)*] [$($a:tt)*] $($rest:tt)* ) => {
 		$crate::proof! { @acc [$($g,)*] [$($a)*
 			#[cfg_attr(kani, kani::stub(b2::blake2b::Blake2b::compress, crate::env::stubs::blake2b_compress_mix))]
+		] $($rest)* }
+	};
+	( @acc [hash_mix_count, $($g:ident,)*] [$($a:tt)*] $($rest:tt)* ) => {
+		$crate::proof! { @acc [$($g,)*] [$($a)*
+			#[cfg_attr(kani, kani::stub(b2::blake2b::Blake2b::compress, crate::env::stubs::blake2b_compress_mix_counting))]
 		] $($rest)* }
 	};
 	( @acc [hash_ideal, $($g:ident,)*] [$($a:tt)*] $($rest:tt)* ) => {
